@@ -100,6 +100,18 @@ CplFlags(parts, size) ==
     \cup (IF \E i \in 1..Len(parts) : ~parts[i].crc THEN {"C01_PartsCarryReturnedChecksums"} ELSE {})
     \cup (IF Tiles(parts, 1, 0) # size THEN {"C01_PartsTileSource"} ELSE {})
 
+\* part planning against the limits in force (C14): every part but the last
+\* within [minp, maxp], at most maxn parts, and the configured chunk size is
+\* kept when it satisfies the limits for this size
+CeilDivO(a, b) == (a + b - 1) \div b
+PlanFlags(parts, size, cfg, known) ==      \* known: the library knew the size when planning
+    LET n == Len(parts)
+        ok == cfg.chunk >= cfg.minp /\ cfg.chunk <= cfg.maxp /\ (~known \/ CeilDivO(size, cfg.chunk) <= cfg.maxn) IN
+    (IF (known /\ n > cfg.maxn) \/ \E i \in 1..n : parts[i].l > cfg.maxp \/ (i < n /\ parts[i].l < cfg.minp)
+     THEN {"C14_PartSizesWithinLimits"} ELSE {})
+    \cup (IF ok /\ \E i \in 1..n : i < n /\ parts[i].l # cfg.chunk
+          THEN {"C14_ChunkChangedOnlyIfRequired"} ELSE {})
+
 \* ------------------------------------------------------------------ S3
 S3Begin(o0, ev) ==
     LET o == Late(AfterDone(o0, ev.x, "s3"), "s3")
@@ -194,7 +206,8 @@ S3End(o0, ev) ==
                  !.x[i].objVia = IF applied /\ ev.op \in {"PutObject", "CopyObject", "CompleteMultipartUpload"}
                                  THEN ev.op ELSE @,
                  !.x[i].cplBad = IF ev.op = "CompleteMultipartUpload"
-                                 THEN @ \cup CplFlags(ev.parts, xr.size) ELSE @,
+                                 THEN @ \cup CplFlags(ev.parts, xr.size) \cup PlanFlags(ev.parts, xr.size, o3.cfg, xr.srck # "nonseekable" \/ xr.provide)
+                                 ELSE @,
                  !.x[i].ranges = IF ev.op = "GetObject" /\ ok THEN @ \cup {<<ev.bs, ev.bl>>} ELSE @,
                  !.x[i].bigPart = @ \/ (ev.op \in {"UploadPart", "PutObject"} /\ xr.srck \in {"seekable", "nonseekable"}
                                             /\ ev.op = "UploadPart"
